@@ -1072,3 +1072,9 @@ add("C09", "benign-sonar-rule-bound-to-local-first", SONR,
     [("        return cls(\n            finding_id=finding_id,\n            rule_id=rule_id,\n            locations=locations,\n            codeflows=all_flows,\n            finding=Finding(\n                id=rule_id,\n                rule=Rule(\n                    id=rule_id,\n                    name=name,\n                    url=sonar_url_from_id(rule_id),\n                ),\n            ),",
       "        rule = Rule(id=rule_id, name=name, url=sonar_url_from_id(rule_id))\n        return cls(\n            finding_id=finding_id,\n            rule_id=rule_id,\n            locations=locations,\n            codeflows=all_flows,\n            finding=Finding(id=rule_id, rule=rule),")],
     "silent")
+add("C10", "dispatch-swallows-hook-error-and-marks-unfixed", LT,
+    [("                new_node = attr(original_node, updated_node)\n", "                try:\n                    new_node = attr(original_node, updated_node)\n                except Exception:\n                    self.report_unfixed(original_node, reason=\"Failed to apply fix\")\n                    return updated_node\n")],
+    "fire", "R-NO-SWALLOW", "_new_or_updated_node")
+add("C18", "codemod-hook-swallows-around-report", "core_codemods/use_set_literal.py",
+    [("                            self.report_change(original_node)\n", "                            try:\n                                self.report_change(original_node)\n                            except Exception:\n                                return updated_node\n")],
+    "fire", "R-NO-SWALLOW", "leave_Call")
